@@ -1266,11 +1266,26 @@ def judge(case, obs, ref):
                     if a.shape != b.shape:
                         out.append(("prefix-values", "%s[%s] has %s rows before the failure, the reference run %s" % (fam, k, a.shape, b.shape)))
                         break
-                    dev = float(np.max(np.abs(a - b) / (1.0 + np.abs(b)))) if a.size else 0.0
+                    # "the same" = equal up to the noise of two converged Newton solves: residuals below TOL = 1e-6 (m3/s on the mass balances,
+                    # m on the head-loss rows) bound flows to ~1e-6 m3/s, velocities to that divided by the pipe area (d >= 0.1 m: x 127),
+                    # heads to the head-loss sensitivity; so: 1e-5 of the column's scale + an absolute floor per quantity.
+                    # times, shapes and statuses are compared exactly.
+                    floor = {"flowrate": 1e-5, "demand": 1e-5, "leak_demand": 1e-5, "velocity": 2e-3, "head": 1e-3, "pressure": 1e-3,
+                             "setting": 1e-9, "status": 0.0}.get(k, 1e-5)
+                    rtol = 1e-5
+                    if case.get("solver") not in (None, "newton") and k != "status":
+                        # the scipy solvers stop at their own, looser tolerance (newton_krylov f_tol ~ 6e-6 on the residual) and two runs of the
+                        # same model differ by up to ~1e-4 relative in the flows: no value reference exists; index, shape and statuses are still exact
+                        dev, bad_vals = 0.0, False
+                    elif a.size:
+                        scale = np.max(np.abs(b), axis=0, keepdims=True) if b.ndim == 2 else np.abs(b)
+                        excess = np.abs(a - b) - (rtol * scale + floor)
+                        dev = float(np.max(np.abs(a - b) / (1.0 + np.abs(b))))
+                        bad_vals = bool(np.any(excess > 0)) or not np.isfinite(a - b).all()
+                    else:
+                        dev, bad_vals = 0.0, False
                     PREFIX_DEV[0] = max(PREFIX_DEV[0], dev)
-                    # the scipy nonlinear solvers stop at their own (looser) tolerance and amplify the run-to-run noise
-                    ptol = 1e-6 if case.get("solver") in (None, "newton") else 1e-3
-                    if (k == "status" and not np.array_equal(a, b)) or not dev <= ptol:
+                    if (k == "status" and not np.array_equal(a, b)) or bad_vals:
                         out.append(("prefix-values", "%s[%s] rows reported before the failure differ from the reference run (max rel. deviation %.3g)" % (fam, k, dev)))
                         break
     return out
